@@ -1,12 +1,13 @@
 (* C12: default partitioner - explicit kept, keyed = XXH32(key, seed 0) mod N, keyless rotates.
    Statements only; proofs in Proofs/C12Facts.v.  XXH32 is Base/Xxh32.v (xxHash specification,
    published test vectors checked there). *)
-From Coq Require Import Sorting.Permutation.
+From Coq Require Import Sorting.Permutation Sorting.Sorted.
 From KV Require Import Base.Prelude Base.Xxh32 Model.Codecs Model.Responses Model.ClientState Model.Producer
                        Proofs.C12Facts.
 
 From KV Require Import Proofs.C12Extra.
 From KV Require Import Proofs.C12ExtraB.
+From KV Require Import Proofs.C12ExtraC.
 Theorem C12_explicit : forall parts cntr topic p key, 0 <= p -> partition parts cntr topic p key = (p, cntr).
 Proof. exact C12Facts.C12_explicit. Qed.
 
@@ -243,3 +244,59 @@ Print Assumptions C12_send_all_chain_call.
 Print Assumptions C12_send_all_chain_counter.
 Print Assumptions C12_send_all_is_client_produce.
 Print Assumptions C12_send_all_rejected_only_if.
+
+Theorem C12_available_ids_increasing :
+  forall (s : cstate) (topic : bytes) (ps : pparts), assoc_bytes topic (producer_state s) = Some ps -> StronglySorted Z.lt (available_ids ps).
+Proof. exact (@C12ExtraC.C12_available_ids_increasing). Qed.
+
+Theorem C12_available_ids_nodup :
+  forall (s : cstate) (topic : bytes) (ps : pparts), assoc_bytes topic (producer_state s) = Some ps -> NoDup (available_ids ps).
+Proof. exact (@C12ExtraC.C12_available_ids_nodup). Qed.
+
+Theorem C12_rotation_led_exactly_once :
+  forall (s : cstate) (cntr : Z) (topic : bytes) (ps : pparts), assoc_bytes topic (producer_state s) = Some ps -> available_ids ps <> [] -> 0 <= cntr -> cntr + ulen (available_ids ps) <= 4294967296 -> NoDup (fst (keyless_run (producer_state s) cntr topic (length (available_ids ps)))) /\ (forall id : Z, In id (fst (keyless_run (producer_state s) cntr topic (length (available_ids ps)))) <-> (exists host : bytes, find_broker s topic id = Some host)).
+Proof. exact (@C12ExtraC.C12_rotation_led_exactly_once). Qed.
+
+Theorem C12_rotation_interleaved_led_exactly_once :
+  forall (s : cstate) (cntr : Z) (recs : list record) (t : bytes) (ps : pparts) (i : nat), assoc_bytes t (producer_state s) = Some ps -> available_ids ps <> [] -> (forall r : record, In r recs -> rotates (producer_state s) r = true -> r_topic r = t) -> 0 <= cntr -> cntr + rot_count (producer_state s) recs <= 4294967296 -> Z.of_nat (i + length (available_ids ps)) <= rot_count (producer_state s) recs -> NoDup (firstn (length (available_ids ps)) (skipn i (rot_parts (producer_state s) recs (fst (assign (producer_state s) cntr recs))))) /\ (forall id : Z, In id (firstn (length (available_ids ps)) (skipn i (rot_parts (producer_state s) recs (fst (assign (producer_state s) cntr recs))))) <-> (exists host : bytes, find_broker s t id = Some host)).
+Proof. exact (@C12ExtraC.C12_rotation_interleaved_led_exactly_once). Qed.
+
+Theorem C12_partition_negative_alike :
+  forall (parts : list (bytes * pparts)) (cntr : Z) (topic : bytes) (p p' : Z) (key : option bytes), p < 0 -> p' < 0 -> partition parts cntr topic p' key = partition parts cntr topic p key \/ partition parts cntr topic p key = (p, cntr) /\ partition parts cntr topic p' key = (p', cntr).
+Proof. exact (@C12ExtraC.C12_partition_negative_alike). Qed.
+
+Theorem C12_partition_negative_alike_assigned :
+  forall (parts : list (bytes * pparts)) (cntr : Z) (topic : bytes) (p p' : Z) (key : option bytes) (ps : pparts), p < 0 -> p' < 0 -> assoc_bytes topic parts = Some ps -> match key with | Some _ => num_all ps <> 0 | None => available_ids ps <> [] end -> partition parts cntr topic p' key = partition parts cntr topic p key.
+Proof. exact (@C12ExtraC.C12_partition_negative_alike_assigned). Qed.
+
+Theorem C12_send_all_reqs_any_negative :
+  forall (s : cstate) (parts : list (bytes * pparts)) (recs : list record) (cntr : Z) (reqs : list (bytes * Requests.produce_tps)), send_all_reqs s parts cntr recs reqs = send_all_reqs s parts cntr (map unspec recs) reqs.
+Proof. exact (@C12ExtraC.C12_send_all_reqs_any_negative). Qed.
+
+Theorem C12_send_all_any_negative :
+  forall (p : producer) (recs : list record) (s : Net.st), producer_send_all p recs s = producer_send_all p (map unspec recs) s.
+Proof. exact (@C12ExtraC.C12_send_all_any_negative). Qed.
+
+Theorem C12_rotation_across_wrap :
+  forall (parts : list (bytes * pparts)) (cntr : Z) (topic : bytes) (ps : pparts) (av : list Z), assoc_bytes topic parts = Some ps -> available_ids ps = av -> av <> [] -> 4294967296 mod ulen av = 0 -> 0 <= cntr -> Permutation (fst (keyless_run parts cntr topic (length av))) av.
+Proof. exact (@C12ExtraC.C12_rotation_across_wrap). Qed.
+
+Theorem C12_calls_counter :
+  forall (p : producer) (batches : list (list record)) (p' : producer), calls p batches p' -> p_parts p' = p_parts p /\ (exists prefs : list (list record), Forall2 (fun pre b : list record => exists n : nat, pre = firstn n b) prefs batches /\ p_cntr p' = snd (assign (p_parts p) (p_cntr p) (concat prefs))).
+Proof. exact (@C12ExtraC.C12_calls_counter). Qed.
+
+Theorem C12_calls_counter_closed :
+  forall (p : producer) (batches : list (list record)) (p' : producer), 0 <= p_cntr p < 4294967296 -> calls p batches p' -> exists prefs : list (list record), Forall2 (fun pre b : list record => exists n : nat, pre = firstn n b) prefs batches /\ p_cntr p' = (p_cntr p + rot_count (p_parts p) (concat prefs)) mod 4294967296.
+Proof. exact (@C12ExtraC.C12_calls_counter_closed). Qed.
+
+Print Assumptions C12_available_ids_increasing.
+Print Assumptions C12_available_ids_nodup.
+Print Assumptions C12_rotation_led_exactly_once.
+Print Assumptions C12_rotation_interleaved_led_exactly_once.
+Print Assumptions C12_partition_negative_alike.
+Print Assumptions C12_partition_negative_alike_assigned.
+Print Assumptions C12_send_all_reqs_any_negative.
+Print Assumptions C12_send_all_any_negative.
+Print Assumptions C12_rotation_across_wrap.
+Print Assumptions C12_calls_counter.
+Print Assumptions C12_calls_counter_closed.
